@@ -372,5 +372,6 @@ class CHECK(vlib.Check):
             d["marker:S"] = d.get("marker:S", 0) + len(re.findall(r":S(;|$)", c))
         g = getattr(self, "_grammar", {})
         d["patterns accepted by the reader of the documented wildcard grammar (domain of translate_correct)"] = g.get("W", 0)
-        d["patterns outside it (ranges, raw regex, regex-syntax mode, malformed, class members , . + * ? \\ ...)"] = g.get("n", 0)
+        d["patterns accepted by the reader of the documented range-list form (domain of range_doc)"] = g.get("R", 0)
+        d["patterns outside both (raw regex, regex-syntax mode, malformed, undocumented range clauses, class members , . + * ? \\ ...)"] = g.get("n", 0)
         return d
